@@ -295,7 +295,7 @@ class Sim:
 
 # ------------------------------------------------------------------------------------------------ one case
 class Bench:
-    """A real model of one net, reused over cases (reset by Model.clear_all, which is itself checked)."""
+    """A real model of one net, reused over cases (every case starts with a checked Model.clear_all())."""
 
     def __init__(self, net):
         self.net = net
@@ -308,20 +308,40 @@ class Bench:
         self.LOG = self.m.LOG
         self.xval = 0
         self.dirty = False
+        self.history = []           # records of the last cases run on this model
 
-    def reset(self, recalc):
-        mx.set_recalc(False)
-        self.m.clear_all()
+    def reset_rec(self, recalc):
+        lines = ["mx.set_recalc(False)", "m.clear_all()"]
         if self.xval != 0:
-            self.m.S.x = 0
-            self.xval = 0
-        del self.LOG[:]
-        o = observe(self.m)
-        if o["held"] or o["items"] or o["inputs"]:
+            lines.append("m.S.x = 0")
+        lines += ["del m.LOG[:]", "mx.set_recalc(%r)" % bool(recalc)]
+        self.xval = 0
+        return {"k": "edit", "ln": "\n".join(lines), "mode": "reset"}
+
+    def step(self, rec):
+        """Execute one record on the real model and check its expectation -> [(kind, detail)]."""
+        n0 = len(self.LOG)
+        value = None
+        try:
+            if rec["k"] == "edit":
+                exec(rec["ln"], self.env)
+            else:
+                value = eval(rec["ln"], self.env)
+        except Exception as ex:
             self.dirty = True
-            return o
-        mx.set_recalc(recalc)
-        return None
+            return [("raises:" + type(ex).__name__, "%s raised %s: %s" % (rec["ln"], type(ex).__name__, str(ex)[:100]))]
+        try:
+            obs = observe(self.m)
+        except Exception as ex:
+            self.dirty = True
+            return [("raises:" + type(ex).__name__, "reading dict(cells)/is_input/itemspaces after %s raised %s: %s"
+                     % (rec["ln"], type(ex).__name__, str(ex)[:100]))]
+        self.last_obs = obs
+        bad = check(rec, obs, self.LOG[n0:], value)
+        if bad:
+            self.dirty = True
+            bad = [(k, "%s (observed %r)" % (d, obs)) for k, d in bad]
+        return bad
 
 
 def op_kind(sim, op, i):
@@ -353,7 +373,7 @@ def struct_tags(D):
 
 def run_case(bench, case):
     """case = (recalc, init, steps); init = 'all' | 'none' | node; steps = ((op, node, eval_after), ...).
-    Returns (failures [(tags, what, records)], nontrivial); sets bench.dirty when the model must be rebuilt."""
+    Returns (failures [(tags, what, records)], nontrivial, records)."""
     net = bench.net
     recalc, init, steps = case
     recs = []                      # replayable user code of this case with the expectation of every step
@@ -361,40 +381,32 @@ def run_case(bench, case):
     base = ["recalc-on" if recalc else "recalc-off", "layout:" + net.layout]
     if "U" in net.kinds:
         base.append("net-has-uncached")
-
-    leftover = bench.reset(recalc)
-    if leftover is not None:
-        return [(base + ["reset", "clear-all-leaves-values"], "Model.clear_all() left %r" % (leftover,), [])], True
     sim = Sim(net)
-    LOG = bench.LOG
     nontrivial = False
+
+    def run(rec, tags):
+        recs.append(rec)
+        bad = bench.step(rec)
+        for k, detail in bad:
+            fails.append((tags + [k], "%s after %s: %s" % (k, rec["ln"].replace("\n", "; "), detail), list(recs)))
+        return not bad
+
+    if not run(bench.reset_rec(recalc), base + ["reset"]):
+        return fails, True, recs
 
     def do_eval(targets, tags):
         for t in targets:
-            ln = net.eval_expr(t)
-            n0, s0 = len(LOG), len(sim.log)
+            s0 = len(sim.log)
             want = sim.evaluate(t)
-            rec = {"k": "eval", "ln": ln, "mode": "exact", "value": want, "state": sim.expected(),
+            rec = {"k": "eval", "ln": net.eval_expr(t), "mode": "exact", "value": want, "state": sim.expected(),
                    "log": sim.log[s0:]}
-            recs.append(rec)
-            try:
-                got = eval(ln, bench.env)
-            except Exception as ex:
-                bench.dirty = True
-                fails.append((tags + ["raises:" + type(ex).__name__],
-                              "%s raised %s: %s" % (ln, type(ex).__name__, str(ex)[:100]), list(recs)))
-                return False
-            bad = check(rec, observe(bench.m), LOG[n0:], got)
-            if bad:
-                bench.dirty = True
-                for k, detail in bad:
-                    fails.append((tags + [k], "%s after %s: %s" % (k, ln, detail), list(recs)))
+            if not run(rec, tags):
                 return False
         return True
 
     targets = list(range(net.n)) if init == "all" else ([] if init == "none" else [init])
     if not do_eval(targets, base + ["initial-evaluation"]):
-        return fails, True
+        return fails, True, recs
 
     xcount = 0
     last = None
@@ -411,7 +423,7 @@ def run_case(bench, case):
             v = xcount
         ln = net.op_line(op, i, v)
         had_inputs = bool(sim.inp)
-        n0, s0 = len(LOG), len(sim.log)
+        s0 = len(sim.log)
         if op == "X":
             sim.x["S"] = v
             rec = {"k": "edit", "ln": ln, "mode": "xchange",
@@ -435,34 +447,32 @@ def run_case(bench, case):
         tags = base + ["op:" + kind] + struct_tags(D)
         if D or had_inputs or op == "A":
             nontrivial = True
-        recs.append(rec)
-        try:
-            exec(ln, bench.env)
-        except Exception as ex:
-            bench.dirty = True
-            fails.append((tags + ["raises:" + type(ex).__name__],
-                          "%s raised %s: %s" % (ln, type(ex).__name__, str(ex)[:100]), list(recs)))
-            return fails, nontrivial
-        obs = observe(bench.m)
-        bad = check(rec, obs, LOG[n0:])
-        if bad:
-            bench.dirty = True
-            for k, detail in bad:
-                fails.append((tags + [k], "%s after %s: %s (observed %r)" % (k, ln, detail, obs), list(recs)))
-            return fails, nontrivial
+        if not run(rec, tags):
+            return fails, nontrivial, recs
         if op == "X":
             bench.xval = v
-            sim.resync(obs)         # what is still held is validated by the evaluations that follow
-        elif rec["mode"] == "recalc":
+            sim.resync(bench.last_obs)      # what is still held is validated by the evaluations that follow
+        elif rec["mode"] == "recalc" and rec["optional"]:
+            held = bench.last_obs["held"]
             for lab, val, entry in rec["optional"]:
-                if lab in obs["held"]:
+                if lab in held:
                     sim.ev(entry - 100, set())
         if eval_after is not None:
             tg = list(range(net.n)) if eval_after == "all" else [eval_after]
             if not do_eval(tg, tags + ["evaluation-after-edit"]):
-                return fails, nontrivial
+                return fails, nontrivial, recs
     do_eval(list(range(net.n)), base + ["final-evaluation"] + (["after-op:" + last] if last else []))
-    return fails, nontrivial
+    return fails, nontrivial, recs
+
+
+def replay(net, recs):
+    """Re-run recorded steps on a fresh model; the problems of the first failing step (or [])."""
+    bench = Bench(net)
+    for idx, rec in enumerate(recs):
+        bad = bench.step(rec)
+        if bad:
+            return idx, bad
+    return None, []
 
 
 SCRIPT = '''# C06 replay: exit 1 iff some step's observable state / returned value / formula execution log differs from
@@ -580,18 +590,25 @@ def work(task):
             if time.time() > deadline:
                 expired = True
                 break
-            if bench.dirty:
-                bench = Bench(net)
-            fl, nontrivial = run_case(bench, case)
-            if fl and not all(f[0][-1] in ("clear-all-leaves-values",) for f in fl):
-                # confirm on a fresh model (the bench is reused between cases)
-                fresh = Bench(net)
-                fl2, _ = run_case(fresh, case)
-                if not fl2:
-                    fl = [(f[0] + ["only-on-a-reused-model"], f[1], f[2]) for f in fl]
+            reused = bool(bench.history)
+            fl, nontrivial, recs = run_case(bench, case)
+            if fl and reused:
+                # the model was reused: confirm on a fresh one, if necessary with the cases that preceded
+                idx, bad = replay(net, recs)
+                if bad:
+                    fl = [(f[0], f[1], recs[:idx + 1]) for f in fl]
                 else:
-                    fl = fl2
+                    for back in (1, 2, 3):
+                        allrecs = [r for h in bench.history[-back:] for r in h] + recs
+                        idx, bad = replay(net, allrecs)
+                        if bad or back == 3:
+                            extra = ["needs-the-preceding-cases"] if bad else ["not-reproduced-on-a-fresh-model"]
+                            fl = [(f[0] + extra, f[1], allrecs[:idx + 1] if bad else allrecs) for f in fl]
+                            break
+            if fl or bench.dirty:
                 bench = Bench(net)
+            else:
+                bench.history = (bench.history + [recs])[-3:]
             key = "%s|%d|%s|%s" % (net.key, case[0], case[1],
                                    ";".join("%s%s%s" % (o, "" if i is None else i, "" if e is None else "e")
                                             for o, i, e in case[2]))
